@@ -88,10 +88,11 @@ Section Mon.
   Definition under_alarm (n : nat) : bool :=
     existsb (fun a => match n_kind (nd p a) with KAlarm => true | _ => false end) (ancestors p n).
   Definition watches : list nat :=
-    filter (fun n => match n_kind (nd p n) with KWatch => negb (under_alarm n) | _ => false end) (seq 0 (length p)).
+    filter (fun n => match n_kind (nd p n) with KWatch | KAlarm => negb (under_alarm n) | _ => false end) (seq 0 (length p)).
   (* a request is carried out exactly when the run log offered it *)
   Definition offered_ok (v : tview) : bool := list_eqb Bool.eqb (tv_accepted v) (tv_offered v).
-  (* a Watch that is cancelled and not activated is never activated afterwards and its body never starts *)
+  (* a Watch (or top-level Alarm) that is cancelled and not activated is never activated afterwards and its body never
+     starts: a cancelled Alarm never fires, so it never re-arms either *)
   Definition cancelled_watch_ok (u v : tview) : bool :=
     forallb (fun n => negb (fst (cf u n) && negb (activated (vst u n)))
                       || (negb (activated (vst v n))
